@@ -1,13 +1,17 @@
 """Engine registry and per-property run plans."""
 from .chain import ChainEngine
 from .mhkernel import MHKernelEngine
+from .gibbs import GibbsEngine
 
 REGISTRY = {
     "chain": ChainEngine,
     "mhkernel": MHKernelEngine,
+    "gibbs": GibbsEngine,
 }
 
 PLAN = {
+    "C09": [{"engine": "gibbs", "level": "exploration",
+             "quick": {"runs": 600, "budget_s": 240}, "thorough": {"runs": 30000, "budget_s": 3000}}],
     "C14": [{"engine": "chain", "level": "fault_enumeration",
              "quick": {"runs": 3000, "budget_s": 240}, "thorough": {"runs": 60000, "budget_s": 3000}}],
     "C02": [{"engine": "mhkernel", "level": "exploration",
